@@ -1407,7 +1407,8 @@ fn judge_deliver(
 
     // claims-level expectation
     let (missing, differing, lat_keys) = match (&json, is_parser_layer) {
-        (Some(j), true) if json_obj => expectation_state(&v.expect, j),
+        // (a JSON payload that is not an object has no members: every expectation is missing)
+        (Some(j), true) => expectation_state(&v.expect, j),
         _ => (vec![], vec![], vec![]),
     };
     let numeric_lat = !lat_keys.is_empty();
@@ -1513,7 +1514,7 @@ fn judge_deliver(
     }
 
     // ---------------- C15
-    if is_parser_layer && !v.expect.is_empty() && json_obj {
+    if is_parser_layer && !v.expect.is_empty() && json.is_some() {
         let shadowed: Vec<String> = missing.iter().chain(differing.iter()).filter(|k| validator_keys.contains(*k) || default_keys.contains(*k)).cloned().collect();
         let facts = [
             ("proto", root.proto.name().to_string()),
@@ -1565,7 +1566,7 @@ fn judge_deliver(
     }
 
     // ---------------- C16
-    if is_parser_layer && !v.validators.is_empty() && json_obj {
+    if is_parser_layer && !v.validators.is_empty() && json.is_some() {
         judge_validators(cx, idx, &root, &v, main, twin, &json, &rejecting, expectations_fail || numeric_lat, time_tri, control_ok);
     }
     if v.default_validators && v.layer == Layer::Batteries && json_obj && out.is_ok() {
